@@ -2,6 +2,7 @@ package core
 
 import (
 	"fmt"
+	"go/constant"
 	"go/token"
 	"go/types"
 	"sort"
@@ -149,6 +150,9 @@ func (p *Prog) Paths(fn *ssa.Function) (paths []*Path, complete bool) {
 				for i, succ := range b.Succs {
 					pol := i == 0
 					dI := mkD(st, true)
+					if val, known := constCond(x.Cond, dI.PhiVal); known && val != pol {
+						continue // comparison of two constants on this path: other branch infeasible
+					}
 					key := dI.NormAtom(x.Cond, pol)
 					// constant condition?
 					if key.S == "true" || key.S == "false" {
@@ -411,4 +415,67 @@ func (pt *Path) StoresTo(addr string) []string {
 		}
 	}
 	return out
+}
+
+// constCond evaluates a branch condition that, with phis resolved along the
+// path, compares two constants (e.g. a variable that was just set to nil).
+func constCond(cond ssa.Value, phiVal func(*ssa.Phi) ssa.Value) (val, known bool) {
+	neg := false
+	for {
+		if u, ok := cond.(*ssa.UnOp); ok && u.Op == token.NOT {
+			cond = u.X
+			neg = !neg
+			continue
+		}
+		break
+	}
+	res := func(v ssa.Value) ssa.Value {
+		for i := 0; i < 8; i++ {
+			switch x := v.(type) {
+			case *ssa.Phi:
+				if phiVal == nil {
+					return v
+				}
+				r := phiVal(x)
+				if r == nil {
+					return v
+				}
+				v = r
+			case *ssa.MakeInterface:
+				v = x.X
+			case *ssa.ChangeType:
+				v = x.X
+			default:
+				return v
+			}
+		}
+		return v
+	}
+	b, ok := cond.(*ssa.BinOp)
+	if !ok || (b.Op != token.EQL && b.Op != token.NEQ) {
+		return false, false
+	}
+	x, okx := res(b.X).(*ssa.Const)
+	y, oky := res(b.Y).(*ssa.Const)
+	if !okx || !oky {
+		return false, false
+	}
+	var eq bool
+	switch {
+	case x.IsNil() && y.IsNil():
+		eq = true
+	case x.IsNil() != y.IsNil():
+		eq = false
+	case x.Value != nil && y.Value != nil:
+		eq = constant.Compare(x.Value, token.EQL, y.Value)
+	default:
+		return false, false
+	}
+	if b.Op == token.NEQ {
+		eq = !eq
+	}
+	if neg {
+		eq = !eq
+	}
+	return eq, true
 }
